@@ -172,10 +172,18 @@ theorem Inv_step (grow : Nat → Nat) {s s' : State} (a : Act) (inv : Inv s)
             rcases List.mem_cons.1 hfr with rfl | hfr
             · exact hf'
             · exact hrest fr hfr
-          · show ((f.pid, readCell s.heap f.h f.k, f.val) :: s.posted).reverse = _
-            rw [List.reverse_cons, inv.hq, List.append_assoc]
+          · show (State.posted { s with log := (f.pid, readCell s.heap f.h f.k, f.val, true) :: s.log }).reverse = _
+            have : State.posted { s with log := (f.pid, readCell s.heap f.h f.k, f.val, true) :: s.log }
+                = (f.pid, readCell s.heap f.h f.k, f.val) :: s.posted := by simp [State.posted]
+            rw [this, List.reverse_cons, inv.hq, List.append_assoc]
         · cases hs
-          refine ⟨inv.wf, ?_, inv.done, inv.ended, inv.hq⟩
+          refine ⟨inv.wf, ?_, inv.done, inv.ended, ?_⟩
+          rotate_left
+          · have : State.posted { s with log := (f.pid, readCell s.heap f.h f.k, f.val, false) :: s.log }
+                = s.posted := by simp [State.posted]
+            show (State.posted _).reverse = _
+            simp only [State.posted, List.filter_cons] at this ⊢
+            simpa [State.posted] using inv.hq
           apply frames_upd inv.frames
           intro fr hfr
           rcases List.mem_cons.1 hfr with rfl | hfr
